@@ -224,4 +224,15 @@ def lean_meta(mods):
     out = (p.stdout + p.stderr).strip()
     if p.returncode != 0 or 'sorryAx' in out or 'error' in out:
         return False, 'lean/Meta.lean does not check: ' + out[-300:]
+    import re
+    need = ['M_LFP', 'M_LFP_inv', 'M_PROGRESS', 'From0_inv', 'M_PERM', 'M_PERM_pred']
+    seen = {}
+    for l in out.splitlines():
+        m = re.match(r"'(\w+)' (depends on axioms: \[(.*)\]|does not depend on any axioms)", l)
+        if m:
+            seen[m.group(1)] = [a.strip() for a in (m.group(3) or '').split(',') if a.strip()]
+    missing = [n for n in need if n not in seen]
+    bad = {n: a for n, a in seen.items() if set(a) - {'propext', 'Quot.sound', 'Classical.choice'}}
+    if missing or bad:
+        return False, f'lean/Meta.lean: theorems not reported {missing}; non-standard axioms {bad}'
     return True, 'lean/Meta.lean checked by Lean 4 (no sorry): ' + '; '.join(l for l in out.splitlines() if 'axioms' in l)
